@@ -272,24 +272,30 @@ def check_unknown(case: dict):
         tok = case["token"]
         if tok in arr or not tok or tok.split() != [tok]:
             raise core.Discard()
-        try:
-            res = t.encode(prefix + [tok])
-        except TokenError:
-            return {"nt": True, "labels": [nm, "unknown-token"]}
-        except Exception as ex:  # noqa: BLE001
-            raise Violation(f"C14:{nm}:unknown-token-raises:{type(ex).__name__}", f"token {tok!r}: {type(ex).__name__} instead of TokenError")
-        raise Violation(f"C14:{nm}:unknown-token-accepted", f"encode({tok!r}) returned {res}")
+        # the text handed over as a list of tokens and as one space-joined string
+        for form, arg in (("list", prefix + [tok]), ("joined", " ".join(prefix + [tok]))):
+            try:
+                res = t.encode(arg)
+            except TokenError:
+                continue
+            except Exception as ex:  # noqa: BLE001
+                raise Violation(f"C14:{nm}:unknown-token-raises:{type(ex).__name__}", f"token {tok!r} ({form}): {type(ex).__name__} instead of TokenError")
+            raise Violation(f"C14:{nm}:unknown-token-accepted", f"encode({tok!r}) ({form}) returned {res}")
+        return {"nt": True, "labels": [nm, "unknown-token"]}
     # ids at or beyond the end of the vocabulary, and ids so negative that not even Python's from-the-end indexing can resolve them
     idx = len(arr) + case["over"] if "over" in case else -len(arr) - 1 - case["under"]
     known = [i % len(arr) for i in case.get("prefix_ids", [])]
     cut = case.get("at", len(known)) % (len(known) + 1)
-    try:
-        res = t.decode(known[:cut] + [idx] + known[cut:])
-    except TokenError:
-        return {"nt": True, "labels": [nm, "unknown-id"]}
-    except Exception as ex:  # noqa: BLE001
-        raise Violation(f"C14:{nm}:unknown-id-raises:{type(ex).__name__}", f"id {idx} (vocab {len(arr)}): {type(ex).__name__} instead of TokenError")
-    raise Violation(f"C14:{nm}:unknown-id-accepted", f"decode([{idx}]) returned {res}")
+    # decoded to a list of tokens and to one space-joined string
+    for joined in (False, True):
+        try:
+            res = t.decode(known[:cut] + [idx] + known[cut:], joined)
+        except TokenError:
+            continue
+        except Exception as ex:  # noqa: BLE001
+            raise Violation(f"C14:{nm}:unknown-id-raises:{type(ex).__name__}", f"id {idx} (vocab {len(arr)}, joined={joined}): {type(ex).__name__} instead of TokenError")
+        raise Violation(f"C14:{nm}:unknown-id-accepted", f"decode([{idx}], joined={joined}) returned {res}")
+    return {"nt": True, "labels": [nm, "unknown-id"]}
 
 
 # ------------------------------------------------------------------------------------------
